@@ -25,6 +25,17 @@ check(
     "DESIGN.md §4 C02",
 )
 
+check(
+    "C03", "exploration",
+    "Hypothesis-generated signature sets and call shapes; the method that the target's own signature selects must "
+    "run with exactly the supplied objects and its own unique default sentinels, and its fresh return value / raised "
+    "exception must reach the caller, all compared by identity. Sampled, not exhaustive.",
+    "Expected target is unambiguous by construction (first-parameter classes pairwise unrelated); positional-by-keyword "
+    "asserted only in the documented regime.",
+    "property-based testing with an identity-based binding oracle (Hypothesis)",
+    "DESIGN.md §4 C03",
+)
+
 ALL = [f"C{i:02d}" for i in range(1, 21)]
 REASON_PENDING = "check not built yet in this revision of /verif (work in progress; see DESIGN.md §8)"
 
